@@ -226,7 +226,7 @@ class Body:
         self.reach_ps(start, _collect=True)
         return list(self._ret_tags)
 
-    def reach_ps(self, start, avoid_blocks=(), _collect=False, avoid_edges=()):
+    def reach_ps(self, start, avoid_blocks=(), _collect=False, avoid_edges=(), assume=None):
         """Blocks reachable from `start` over normal edges with a little path sensitivity: the variant (Ok/Err, Continue/Break) of
         Result / ControlFlow values built on the path is tracked through moves, `Try::branch` and `discriminant`, and a switch on a known
         variant follows only the matching arm.  (Needed once a Result-returning helper is inlined: its `return Err(..)` and `Ok(())`
@@ -275,6 +275,8 @@ class Body:
                 at = tags.get(a0["pl"]["l"]) if a0 and a0.get("k") in ("copy", "move") and not a0["pl"]["p"] else None
                 if nm.endswith("Try::branch") and at in ("Ok", "Err", "Some", "None"):
                     tags[d] = "Continue" if at in ("Ok", "Some") else "Break"
+                elif assume and bi in assume:
+                    tags[d] = assume[bi]      # a fact about this call's result established by the caller (e.g. `mem::replace(&mut flag, true)` of a flag known to be unset)
                 elif nm.endswith("FromResidual::from_residual"):
                     tags[d] = "Err"
                 elif re.search(r"result::Result::<.*>::(map|map_err|inspect|inspect_err)$|option::Option::<.*>::(map|inspect|filter_map_never)$", nm) and at in ("Ok", "Err", "Some", "None"):
